@@ -188,7 +188,7 @@ Fixpoint valid_topic_name_loop (fuel : nat) (must : bool) (p : list N) : res boo
       | [] => Ok true
       | p0 :: _ =>
           let '(ru, size) := decode_rune p in
-          if must && (ru =? RUNE_ERROR) then Ok false
+          if must && (ru =? RUNE_ERROR) && (size <=? 1) then Ok false
           else if (size =? 1) && ((p0 =? PLUS) || (p0 =? HASH)) then Ok false
           else do p' <- slice_from size p; valid_topic_name_loop k must p'
       end
@@ -206,7 +206,7 @@ Fixpoint valid_topic_filter_loop (fuel : nat) (must : bool) (prev : option N) (p
       | p0 :: t =>
           let '(ru, size) := decode_rune p in
           let plen1 := is_empty t in                       (* plen == 1 *)
-          if must && (ru =? RUNE_ERROR) then Ok false
+          if must && (ru =? RUNE_ERROR) && (size <=? 1) then Ok false
           else if (p0 =? HASH) && negb plen1 then Ok false
           else
             do ok <-
@@ -240,7 +240,7 @@ Fixpoint v5_share_loop (fuel : nat) (subp : list N) : res bool :=
       | [] => Ok false                       (* loop ends without a '/': return false *)
       | s0 :: _ =>
           let '(ru, size) := decode_rune subp in
-          if ru =? RUNE_ERROR then Ok false
+          if (ru =? RUNE_ERROR) && (size <=? 1) then Ok false
           else if (size =? 1) && (s0 =? SLASH) then
             do rest <- slice_from 1 subp; valid_topic_filter_impl true rest
           else if (size =? 1) && ((s0 =? PLUS) || (s0 =? HASH)) then Ok false
